@@ -200,7 +200,7 @@ def run(tier, seed):
     bdir = build.build("asan")
     exe = bdir + "/jcdrv"
     chk = core.Check(PID, tier, seed)
-    ndocs = 200000 if tier == "quick" else 2000000
+    ndocs = 200000 if tier == "quick" else 6000000
     sh = core.parallel(shard_fn, seed=seed, tier=tier, exe=exe, ndocs=ndocs)
     chk.absorb(sh)
     chk.rule = ("documents drawn value-first by gen/docs.py (random surface form: whitespace, escape forms, raw vs escaped, "
